@@ -131,9 +131,9 @@ package tq
 //@   noeffect
 //@ func (*github.com/git-lfs/git-lfs/v3/lfsapi.Client).LogRequest
 //@   assumed
-//@   props C02
+//@   props C02 C18
 //@   modifies fresh
-//@   ensures result != nil && result.Header != nil
+//@   ensures result != nil && result.Header != nil && result.URL == r.URL
 
 // DoTransfer reserves a temp file outside the object store, resumes from a
 // stale partial file if there is one (its bytes are re-hashed first) and then
